@@ -95,7 +95,7 @@ def rt_case(draw):
         else:
             wide = draw(st.integers(0, 9)) == 0
             cookies.append({'name': n, 'secret': None, 'value': draw(PLAIN_WIDE if wide else PLAIN)})
-    return {'cookies': cookies, 'status': draw(st.sampled_from([None, None, None, 201, 204, 304, 304, 404, 500])), 'via': draw(st.sampled_from(['response', 'response', 'returned', 'raised', 'copied', 'copy_returned'])),
+    return {'cookies': cookies, 'status': draw(st.sampled_from([None, None, None, 201, 204, 304, 304, 404, 500])), 'via': draw(st.sampled_from(['response', 'response', 'returned', 'raised', 'copied', 'copy_returned', 'both_returned', 'both_raised'])),
             'prime': draw(st.sampled_from([None, None, 'zz=1', names[0] + '=stale', names[0] + '="!bm9wZQ==?bm9wZQ=="']))}
 
 
@@ -107,12 +107,32 @@ def set_and_collect(cookies, status=None, via='response'):
     app = ombott.Ombott()
 
     def h():
-        target = app.response if via in ('response', 'copied', 'copy_returned') else ombott.HTTPResponse('body', status or 200)
-        for c in cookies:
+        if via in ('both_returned', 'both_raised'):
+            target = None
+        else:
+            target = app.response if via in ('response', 'copied', 'copy_returned') else ombott.HTTPResponse('body', status or 200)
+        for c in (cookies if target is not None else ()):
             if c['secret'] is not None:
                 target.set_cookie(c['name'], from_plain(c['data']), secret=c['secret'])
             else:
                 target.set_cookie(c['name'], c['value'])
+        if via in ('both_returned', 'both_raised'):
+            # the handler first sets the names on the application's response (with other values), then answers with a response object of its own
+            # carrying the cookies: what the client gets is what the answered object holds
+            for cc in cookies:
+                if cc['secret'] is not None:
+                    app.response.set_cookie(cc['name'], ['stale', 'value'], secret=cc['secret'])
+                else:
+                    app.response.set_cookie(cc['name'], 'stale-value-on-the-application-response')
+            target = ombott.HTTPResponse('body', status or 200)
+            for cc in cookies:
+                if cc['secret'] is not None:
+                    target.set_cookie(cc['name'], from_plain(cc['data']), secret=cc['secret'])
+                else:
+                    target.set_cookie(cc['name'], cc['value'])
+            if via == 'both_raised':
+                raise target
+            return target
         if via in ('copied', 'copy_returned'):
             # the response is copied (what redirect() does); afterwards the SAME names are set again on the other object
             if status:
@@ -614,6 +634,42 @@ def check_global(ctx, case):
     ctx.nontrivial('global:' + case['global'])
 
 
+# ----------------------------------------------------------------- cookie attributes (expiry, scope) have no say in what reads back
+def check_options(ctx, case):
+    import datetime, os, time
+    import ombott
+    old_tz = os.environ.get('TZ')
+    os.environ['TZ'] = case['tz']
+    time.tzset()
+    try:
+        now = time.time()
+        opts = {'expires_naive_utc': {'expires': datetime.datetime.utcfromtimestamp(now + 3600)}, 'expires_ts': {'expires': now + 3600}, 'expires_date': {'expires': datetime.date.fromtimestamp(now + 3 * 86400)},
+                'max_age': {'max_age': 3600}, 'max_age_td': {'max_age': datetime.timedelta(hours=1)}, 'both': {'max_age': 60, 'expires': now + 60},
+                'scope': {'path': '/app', 'domain': 'example.org', 'secure': True, 'httponly': True}, 'far': {'expires': datetime.datetime(2037, 1, 1)}}[case['opts']]
+        app = ombott.Ombott()
+
+        def h():
+            app.response.set_cookie('s', ['user', 7], secret='k', **opts)
+            app.response.set_cookie('p', 'plain value', **opts)
+            return 'ok'
+        app.route('/set', callback=h)
+        r = call_app(app, make_environ('GET', '/set'))
+        if r.escaped is not None or r.code != 200:
+            raise CheckFailure(f'set_cookie(..., **{opts!r}) under TZ={case["tz"]} failed: {r.status!r} {r.errors[-400:]}')
+        pairs = [v.split(';', 1)[0] for v in r.header_all('Set-Cookie')]          # the browser returns name=value only
+        got = read_back('; '.join(pairs), [('s', 'k'), ('p', None)])
+        if got[0][1] != ['user', 7] or got[1][1] != 'plain value':
+            raise CheckFailure(f'cookies set with {case["opts"]} ({opts!r}) under TZ={case["tz"]} (not yet expired) read back as {got[0][1]!r} / {got[1][1]!r}; emitted {r.header_all("Set-Cookie")!r}')
+        ctx.evals += 1
+        ctx.nontrivial('opts:' + case['tz'] + ':' + case['opts'])
+    finally:
+        if old_tz is None:
+            os.environ.pop('TZ', None)
+        else:
+            os.environ['TZ'] = old_tz
+        time.tzset()
+
+
 def witness_k15(ctx):
     """Pinned witness of open finding K15 (plain cookie above U+00FF)."""
     c = [{'name': 'w', 'secret': None, 'value': 'Ω'}]
@@ -629,13 +685,13 @@ def witness_k15(ctx):
 
 def run(ctx):
     for name, case in load_corpus(ID):
-        ctx.guarded(check_sequence if 'sequence' in case else check_graph if 'graph' in case else check_global if 'global' in case else check_threaded if 'threaded' in case else (check_tamper if 'other_secret' in case else check_roundtrip), case)
+        ctx.guarded(check_sequence if 'sequence' in case else check_graph if 'graph' in case else check_global if 'global' in case else check_options if 'options' in case else check_threaded if 'threaded' in case else (check_tamper if 'other_secret' in case else check_roundtrip), case)
         ctx.count('corpus')
     if ctx.shard == 0:
         ctx.guarded(lambda c, _: witness_k15(c), {'witness': 'K15'})
         # a plain and a signed cookie under every status / way of answering, and on a request object that was asked before its Cookie header was replaced
         for status in (None, 200, 201, 204, 206, 301, 304, 400, 404, 500):
-            for via in ('response', 'returned', 'raised', 'copied', 'copy_returned'):
+            for via in ('response', 'returned', 'raised', 'copied', 'copy_returned', 'both_returned', 'both_raised'):
                 for prime in (None, 'p=old; s="!bm9wZQ==?bm9wZQ=="'):
                     ctx.guarded(check_roundtrip, {'cookies': [{'name': 'p', 'secret': None, 'value': 'plain v'}, {'name': 's', 'secret': 'k', 'data': ['u', 1]}],
                                                   'status': status, 'via': via, 'prime': prime})
@@ -671,6 +727,10 @@ def run(ctx):
         for gname in sorted(_glob_table()):
             ctx.guarded(check_global, {'global': gname, 'secret': 's3cret'})
         ctx.count('importable_object_values', len(_glob_table()))
+        for tz in ('UTC', 'XXX-5', 'YYY5', 'ZZZ-13', 'AAA9:30'):
+            for o in ('expires_naive_utc', 'expires_ts', 'expires_date', 'max_age', 'max_age_td', 'both', 'scope', 'far'):
+                ctx.guarded(check_options, {'options': True, 'tz': tz, 'opts': o})
+        ctx.count('cookie_attribute_grid')
     ctx.hyp(st.fixed_dictionaries({'graph': GRAPH, 'secret': SECRET}), check_graph, 150 if ctx.tier == 'quick' else 3000, label='graph')
     if ctx.shard == 0:
         for old, new in (('old-secret', 'new-secret'), ('k', 'K'), ('é', 'e')):
@@ -688,4 +748,6 @@ def replay(ctx, case):
         return check_graph(ctx, case)
     if 'global' in case:
         return check_global(ctx, case)
+    if 'options' in case:
+        return check_options(ctx, case)
     (check_tamper if 'other_secret' in case else check_roundtrip)(ctx, case)
